@@ -17,7 +17,8 @@ Part R (round trip): every valid (fft, cp, used) of the tier x the six input
 Part C (channel): every valid (fft, cp, used) x tap-delay sets inside {0..cp}
   (1..3 taps) x tap powers from {0,-3,-10} dB x 3 seeded time-invariant
   realisations (real TdlChannel driven by JakesSampleGenerator(Fd=0, Ts=1,
-  RS=RandomState(recorded seed))) x input lengths:
+  RS=RandomState(recorded seed))) x input lengths {used+1, 2 used+3} (thorough,
+  full alphabet: also 1):
   (5) equalize_data(demodulate(rx[:len(tx)]), reported impulse response)
       == x ++ zeros with tolerance ~ max|H|/min|H| (H = frequency response the
       check derives from the *reported* taps by a direct sum, aliasing
@@ -44,7 +45,8 @@ RULE = ("P: every (fft, cp, used) of the integer grid fft in -1..Fp, cp in -2..f
         "C: the same configurations x tap-delay sets of 1..3 taps inside {0..cp} (ALL such subsets for "
         "fft <= F_full, otherwise all subsets of the boundary delays {0,1,cp//2,cp-1,cp}) x tap powers "
         "from {0,-3,-10} dB (all tuples up to a common shift for fft <= F_full, 1/4/4 tuples otherwise) "
-        "x 3 seeded static realisations x input lengths: equalised demodulated data == input ++ zeros. "
+        "x 3 seeded static realisations x input lengths {used+1, 2used+3} (thorough, fft <= F_full: also 1): "
+        "equalised demodulated data == input ++ zeros. "
         "Non-trivial: R with n > 1; C with a tap at non-zero delay. Distinct = distinct "
         "(fft, cp, used, n) resp. (fft, cp, used, delay set)")
 
@@ -67,7 +69,7 @@ def tier_params(tier):
         return dict(F_all=24, F_full=10, Fp=26,
                     big=[(fft, cp, used) for fft in (32, 64, 128) for cp in range(fft + 1)
                          for used in sorted({2, fft // 2, fft - 2, fft})] + [(64, 16, 52)],
-                    ch_lengths_full="all", ch_lengths_boundary="two")
+                    ch_lengths_full="three", ch_lengths_boundary="two")
     return dict(F_all=8, F_full=8, Fp=10,
                 big=[(16, cp, used) for cp in range(17) for used in range(2, 17, 2)] + [(64, 16, 52)],
                 ch_lengths_full="two", ch_lengths_boundary="two")
@@ -96,6 +98,8 @@ def lengths(used):
 def channel_lengths(used, which):
     if which == "all":
         return lengths(used)
+    if which == "three":
+        return [1, used + 1, 2 * used + 3]
     return [used + 1, 2 * used + 3]     # 2 symbols with padding; >= 3 symbols with padding
 
 
